@@ -21,6 +21,7 @@ func checkC01(p *Prog, r *Report) {
 	ruleNilPointerFromData(p, a, r, "R-C01-NILPTR")
 	ruleReflectHazards(p, a, r, "R-C01-HAZARD", nil)
 	ruleSelfPrintingValues(p, a, r, "R-C01-SELFPRINT")
+	ruleNestingBound(p, a, r, "R-C01-NEST")
 	ruleDivisionGuards(p, a, r, "R-C01-D", false)
 	ruleC01Panics(p, a, r)
 	ruleResourceCaps(p, a, r, "R-C01-CAP")
